@@ -521,6 +521,9 @@ func (tc *tcase) checkPath(fn *ssa.Function, p tpath) (problem string, infeasibl
 		}
 	}
 	known, present, old, plainOld := tc.presence(fn, key, p)
+	if known && !tc.lookupPrecedes(fn, key, mapEffs[0].in) {
+		return fmt.Sprintf("presence of k in %s is tested only after %s[k] has been changed: the test always sees the new state", tc.spec.M.Name(), tc.spec.M.Name()), false, true
+	}
 	if !known {
 		if plainOld != nil && tc.spec.byValue {
 			return fmt.Sprintf("the previous value %s[k] is read without testing presence (a missing entry reads as \"\" and SearchStrings(S,\"\") is 0: another item's entry gets overwritten)", tc.spec.M.Name()), false, true
@@ -568,11 +571,15 @@ func (tc *tcase) checkPath(fn *ssa.Function, p tpath) (problem string, infeasibl
 		if !ok {
 			continue
 		}
-		xk, ok := tc.searchOf(b.X)
+		bx, by, bop := b.X, b.Y, b.Op
+		if _, isSearch := tc.searchOf(by); isSearch {
+			bx, by, bop = by, bx, flipOp(bop)
+		}
+		xk, ok := tc.searchOf(bx)
 		if !ok {
 			continue
 		}
-		lc, isLen := b.Y.(*ssa.Call)
+		lc, isLen := by.(*ssa.Call)
 		if !isLen || staticCalleeName(lc) != "builtin.len" {
 			continue
 		}
@@ -582,7 +589,7 @@ func (tc *tcase) checkPath(fn *ssa.Function, p tpath) (problem string, infeasibl
 		} else {
 			inS = present && sameVal(xk, key, eqs)
 		}
-		notFound := (b.Op == token.EQL && f.val) || (b.Op == token.GEQ && f.val) || (b.Op == token.LSS && !f.val) || (b.Op == token.NEQ && !f.val)
+		notFound := (bop == token.EQL && f.val) || (bop == token.GEQ && f.val) || (bop == token.LSS && !f.val) || (bop == token.NEQ && !f.val)
 		if inS && notFound {
 			return "", true, true
 		}
@@ -701,4 +708,25 @@ func (tc *tcase) run(rule string, fn *ssa.Function) {
 		}
 	}
 	e.pass(rule, construct, e.pos(fn.Pos()), "%d path(s) enumerated, %d with effects checked against the case table, %d dropped as infeasible under the invariant (value known to be in the slice but search says not found)", len(ps), checked, dropped)
+}
+
+// lookupPrecedes: some comma-ok lookup of M[k] in fn is executed before instruction `first` (dominates it).
+func (tc *tcase) lookupPrecedes(fn *ssa.Function, k ssa.Value, first ssa.Instruction) bool {
+	if first.Parent() != fn {
+		return true // effect inside an inlined helper: ordering is judged in the helper's own analysis
+	}
+	ok := false
+	instrs(fn, func(in ssa.Instruction) {
+		lk, isLk := in.(*ssa.Lookup)
+		if !isLk || !lk.CommaOk || strip(lk.Index) != strip(k) {
+			return
+		}
+		if _, isM := loadOfFieldBase(lk.X, tc.spec.M); !isM {
+			return
+		}
+		if idominates(lk, first) && lk != first {
+			ok = true
+		}
+	})
+	return ok
 }
